@@ -1,8 +1,10 @@
 """C20 - the app monitor converges to the target count without overshoot.
 
 Explicit-state BFS (mc.statex) over histories of the real
-`treadmill.sproc.appmonitor.reevaluate` under a virtual clock, a fake REST
-client and the mirrored watch glue of `_run_sync` (mc/c20_model.py).  From
+`treadmill.sproc.appmonitor` - `reevaluate` and the real watch glue of
+`_run_sync` (callbacks captured by running `_run_sync` on a tiny ZooKeeper
+client, see mc/c20_model.py) - under a virtual clock and a fake REST client.
+The children of /scheduled reach the real watch in a menu of orders.  From
 every reached state two scripted continuations are executed as well: a *drain*
 (all instances die, evaluate with a succeeding API, 2*max+2 times) and a
 *convergence* run (+1 h, three succeeding evaluations, then instances ==
@@ -11,7 +13,10 @@ target).
 HASH_INSENSITIVE: `reevaluate` iterates `monitors` (a dict, insertion order)
 and one set difference (`suspended` keys minus `monitors` keys) whose elements
 are only popped from a dict - the order cannot influence any request or the
-token state.  One hash seed is enough.
+token state.  The real `_appmonitors_watch` iterates `missing` (a set): the
+harness adds monitors one at a time, and the restart event (the only place
+where several could be loaded at once) exists in the single-monitor
+configuration only.  One hash seed is enough.
 """
 import collections
 
@@ -28,11 +33,19 @@ RULE = ('an evaluation is non-trivial when reevaluate issued at least one REST '
         'requests are counted separately in nontrivial_counters')
 
 ASSUMPTIONS = [
-    'the watch callbacks of _run_sync cannot be driven here (kazoo decorators, '
-    'exit_on_unhandled, endless loop); the harness mirrors them: scheduled = '
-    'sorted children grouped by app name, a (re)configured monitor gets a '
-    'fresh bucket {count, available=2*count, rate=2*count/3600, last_update}, '
-    'a deleted monitor is popped from state[monitors]',
+    'the watch glue of _run_sync is the real code: every world runs the real '
+    '_run_sync(once=True) on a tiny in-memory ZooKeeper client (ChildrenWatch '
+    'decorator that captures and calls the nested callbacks, one-shot data '
+    'watches under the real zkwatchers.ExistingDataWatch, get); reevaluate is '
+    'a capturing stub for that one start-up call only, time.sleep is a no-op, '
+    'utils.sys_exit raises instead of killing the worker; the harness then '
+    'delivers children / data watch events to the real callbacks and calls '
+    'the real reevaluate on the state dict of that closure',
+    'ZooKeeper lists the children of /scheduled in no particular order: the '
+    'evaluation events exist with the children delivered sorted, reversed and '
+    'interleaved (first, then the rest backwards), the latter two whenever an '
+    'application has at least two instances; a deleted monitor delivers its '
+    'data watch before the children watch',
     'the scheduled view is up to date at every evaluation: instances created '
     'by an accepted request are visible at the next evaluation, deleted ones '
     'are gone (watch lag is outside the statement)',
@@ -93,6 +106,12 @@ class MonSpec(statex.Spec):
                     viol.append(v)
                 if new:
                     break
+                if kind == 'drain' and ev[0] == 'eval' and not w.calls:
+                    # nothing was asked for and the oracle did not object:
+                    # every instance is gone and no budget is left (or the
+                    # monitor is suspended / deleted); no time passes in the
+                    # drain, so further rounds would repeat this one
+                    break
             delta = collections.Counter(w.stats)
             delta.subtract(before)
             stats['probe_%s_runs' % kind] += 1
@@ -111,6 +130,9 @@ def _cfg_single(tier):
         'max_instances': 4,
         'delete': True,
         'restart': tier == 'thorough',
+        'orders': ['reversed', 'interleaved'],
+        'order_answers': [('ok',)] if tier == 'quick'
+        else [('ok',), ('boom',)],
     }
     roots = [(('mon', A, c, p),) for p in (None, 'fifo', 'lifo', 'bogus')
              for c in (0, 1, 2, 3)]
@@ -126,6 +148,9 @@ def _cfg_pair(tier):
         'max_instances': 3,
         'delete': True,
         'restart': False,
+        'orders': ['reversed'] if tier == 'quick'
+        else ['reversed', 'interleaved'],
+        'order_answers': [('ok',)],
     }
     roots = []
     for (c1, c2) in ((1, 2), (2, 1), (3, 0)):
@@ -262,7 +287,8 @@ def run(ctx):
             'space_exhausted': res.exhausted,
             'events_menu': {k: cfg[k] for k in
                             ('names', 'answers', 'ticks', 'counts',
-                             'max_instances', 'delete', 'restart')},
+                             'max_instances', 'delete', 'restart',
+                             'orders', 'order_answers')},
             'probes_from_every_state': ['drain', 'converge'],
             'canonical_key_bisimulation_check': bisim,
             'final_level_probed': bool(getattr(res, 'final_probe_pass',
